@@ -1,19 +1,588 @@
-From DivanV Require Import Base.Res Model.Stats.
+(** Proofs about the model of [compute_stats] (Model/Stats.v). *)
+From DivanV Require Import Base.Res Model.Stats Proofs.StatsLists.
 From Coq Require Import ZifyN ZifyBool ZifyNat Permutation Sorted.
 Local Open Scope N_scope.
 Ltac Zify.zify_post_hook ::= Z.div_mod_to_equations.
+Local Arguments N.add : simpl never.
+Local Arguments N.sub : simpl never.
+Local Arguments N.mul : simpl never.
+Local Arguments N.div : simpl never.
+Local Arguments N.modulo : simpl never.
+Local Arguments N.pow : simpl never.
+
+Lemma two128_val : 2 ^ 128 = 340282366920938463463374607431768211456. Proof. reflexivity. Qed.
+Lemma two64_val : 2 ^ 64 = 18446744073709551616. Proof. reflexivity. Qed.
+Lemma two32_val : 2 ^ 32 = 4294967296. Proof. reflexivity. Qed.
+
+(** * Old behaviour and the remaining panic *)
 
 Definition empty_inputs (s : N) : inputs :=
   {| in_size := s; in_durs := []; in_allocs := []; in_counters := [ {| ci_counts := []; ci_input := false |} ] |}.
 
 (** The code before commit f2a8733 (F1): with no samples the median counter
-    divides by [median_samples.len() = 0]. *)
+    divides by [median_samples.len() = 0] ... *)
 Example old_code_divides_by_zero :
   compute_stats false true [] (empty_inputs 1) = Panic DivByZero.
 Proof. reflexivity. Qed.
 
-(** The current code panics when samples exist but the sample size is 0. *)
+(** ... and, had it not panicked, every allocation figure would be [0.0/0.0]. *)
+Example old_code_nan :
+  exists st, compute_stats false true []
+               {| in_size := 0; in_durs := []; in_allocs := []; in_counters := [] |} = Ok st
+             /\ existsb xq_is_nan (all_xq st) = true.
+Proof. eexists. split; [reflexivity|]. reflexivity. Qed.
+
+(** The current code still divides by the sample size when samples exist. *)
 Lemma zero_sample_size_panics :
   forall dbg, compute_stats true dbg [(0, 1)]
     {| in_size := 0; in_durs := [1]; in_allocs := []; in_counters := [] |} = Panic DivByZero.
 Proof. intros []; reflexivity. Qed.
+
+(** * Pieces: when they are [Ok], and what they return *)
+
+Lemma add128_ok dbg a b :
+  (dbg = true -> a + b < 2 ^ 128) -> exists v, add128 dbg a b = Ok v.
+Proof.
+  intros H. unfold add128, checked_add. destruct dbg; [|eexists; reflexivity].
+  specialize (H eq_refl). apply N.ltb_lt in H. rewrite H. eexists; reflexivity.
+Qed.
+
+Lemma add128_val dbg a b v : add128 dbg a b = Ok v -> a + b < 2 ^ 128 -> v = a + b.
+Proof.
+  unfold add128, checked_add. intros H Hlt. destruct dbg.
+  - destruct (a + b <? 2 ^ 128); [injection H as <-; reflexivity|discriminate].
+  - injection H as <-. apply N.mod_small. exact Hlt.
+Qed.
+
+Lemma sum128_val dbg l : forall acc v,
+  sum128 dbg acc l = Ok v -> acc + sum_list l < 2 ^ 128 -> v = acc + sum_list l.
+Proof.
+  induction l as [|x r IH]; intros acc v H Hlt; cbn [sum128 sum_list] in *.
+  - injection H as <-. lia.
+  - destruct (add128 dbg acc x) as [a|] eqn:E; cbn [bind] in H; [|discriminate].
+    apply add128_val in E; [|lia]. subst a. apply IH in H; lia.
+Qed.
+
+Lemma sum128_ok dbg l : forall acc,
+  (dbg = true -> acc + sum_list l < 2 ^ 128) -> exists v, sum128 dbg acc l = Ok v.
+Proof.
+  induction l as [|x r IH]; intros acc H; cbn [sum128 sum_list] in *; [eexists; reflexivity|].
+  destruct (add128_ok dbg acc x) as [a Ea]; [intros D; specialize (H D); lia|].
+  rewrite Ea. cbn [bind]. apply IH. intros D. specialize (H D).
+  apply add128_val in Ea; [|lia]. subst a. lia.
+Qed.
+
+Lemma mul64_ok dbg a b : (dbg = true -> a * b < 2 ^ 64) -> exists v, mul64 dbg a b = Ok v.
+Proof.
+  intros H. unfold mul64, checked_mul. destruct dbg; [|eexists; reflexivity].
+  specialize (H eq_refl). apply N.ltb_lt in H. rewrite H. eexists; reflexivity.
+Qed.
+
+Lemma mul64_val dbg a b v : mul64 dbg a b = Ok v -> a * b < 2 ^ 64 -> v = a * b.
+Proof.
+  unfold mul64, checked_mul. intros H Hlt. destruct dbg.
+  - destruct (a * b <? 2 ^ 64); [injection H as <-; reflexivity|discriminate].
+  - injection H as <-. apply N.mod_small. exact Hlt.
+Qed.
+
+Lemma checked_div_ok a b : b <> 0 -> checked_div a b = Ok (a / b).
+Proof. intros H. unfold checked_div. destruct (b =? 0) eqn:E; [apply N.eqb_eq in E; contradiction|reflexivity]. Qed.
+
+Lemma checked_div_inv a b v : checked_div a b = Ok v -> b <> 0 /\ v = a / b.
+Proof.
+  unfold checked_div. destruct (b =? 0) eqn:E; [discriminate|]. intros [= <-].
+  apply N.eqb_neq in E. split; [exact E|reflexivity].
+Qed.
+
+(** ** [slice_middle] *)
+
+Lemma firstn_skipn_1 {A} (l : list A) : forall a, (a < length l)%nat ->
+  exists x, nth_error l a = Some x /\ firstn 1 (skipn a l) = [x].
+Proof.
+  induction l as [|y r IH]; intros a H; cbn [length] in H; [lia|].
+  destruct a as [|a].
+  - exists y. split; reflexivity.
+  - cbn [nth_error skipn]. apply IH. lia.
+Qed.
+
+Lemma firstn_skipn_2 {A} (l : list A) : forall a, (S a < length l)%nat ->
+  exists x y, nth_error l a = Some x /\ nth_error l (S a) = Some y /\ firstn 2 (skipn a l) = [x; y].
+Proof.
+  induction l as [|z r IH]; intros a H; cbn [length] in H; [lia|].
+  destruct a as [|a].
+  - destruct r as [|y r']; [cbn [length] in H; lia|]. exists z, y. repeat split; reflexivity.
+  - cbn [skipn]. destruct (IH a ltac:(lia)) as (x & y & H1 & H2 & H3).
+    exists x, y. repeat split; assumption.
+Qed.
+
+Lemma even_half n : Nat.even n = true -> n <> 0%nat -> (S (n / 2 - 1) = n / 2 /\ n / 2 < n /\ 1 <= n / 2)%nat.
+Proof.
+  intros He Hn. apply Nat.even_spec in He. destruct He as [k ->].
+  replace (2 * k / 2)%nat with k by (symmetry; rewrite Nat.mul_comm; apply Nat.div_mul; lia). lia.
+Qed.
+
+Lemma half_lt n : n <> 0%nat -> (n / 2 < n)%nat.
+Proof. intros H. apply Nat.div_lt; lia. Qed.
+
+(** What [slice_middle] returns: never a panic; nothing, the middle element,
+    or the two middle elements. *)
+Inductive middle_of {A} (l : list A) : list A -> Prop :=
+| MidNone : l = [] -> middle_of l []
+| MidOne x : Nat.even (length l) = false -> nth_error l (length l / 2) = Some x -> middle_of l [x]
+| MidTwo x y : l <> [] -> Nat.even (length l) = true ->
+               nth_error l (length l / 2 - 1) = Some x -> nth_error l (length l / 2) = Some y ->
+               middle_of l [x; y].
+
+Lemma slice_middle_ok {A} (l : list A) : exists m, slice_middle l = Ok m /\ middle_of l m.
+Proof.
+  unfold slice_middle. destruct (length l =? 0)%nat eqn:E0.
+  - apply Nat.eqb_eq in E0. destruct l; [|discriminate]. exists []. split; [reflexivity|constructor; reflexivity].
+  - apply Nat.eqb_neq in E0. destruct (Nat.even (length l)) eqn:Ev.
+    + destruct (even_half _ Ev E0) as (H1 & H2 & H3).
+      destruct (firstn_skipn_2 l (length l / 2 - 1) ltac:(lia)) as (x & y & Hx & Hy & Hf).
+      rewrite H1 in Hy.
+      unfold slice_from. destruct (length l / 2 - 1 <=? length l)%nat eqn:Eb; [|apply Nat.leb_gt in Eb; lia].
+      cbn [bind]. unfold slice_to. rewrite skipn_length.
+      destruct (2 <=? length l - (length l / 2 - 1))%nat eqn:Ec; [|apply Nat.leb_gt in Ec; lia].
+      exists [x; y]. split; [rewrite Hf; reflexivity|].
+      apply MidTwo; try assumption. intros ->. apply E0. reflexivity.
+    + pose proof (half_lt _ E0) as H2.
+      destruct (firstn_skipn_1 l (length l / 2) H2) as (x & Hx & Hf).
+      unfold slice_from. destruct (length l / 2 <=? length l)%nat eqn:Eb; [|apply Nat.leb_gt in Eb; lia].
+      cbn [bind]. unfold slice_to. rewrite skipn_length.
+      destruct (1 <=? length l - length l / 2)%nat eqn:Ec; [|apply Nat.leb_gt in Ec; lia].
+      exists [x]. split; [rewrite Hf; reflexivity|]. apply MidOne; assumption.
+Qed.
+
+Lemma slice_middle_inv {A} (l m : list A) : slice_middle l = Ok m -> middle_of l m.
+Proof. intros H. destruct (slice_middle_ok l) as (m' & H1 & H2). rewrite H in H1. injection H1 as ->. exact H2. Qed.
+
+Lemma middle_length {A} (l m : list A) : middle_of l m -> (length m <= 2)%nat /\ (l <> [] -> m <> []).
+Proof. intros H. destruct H; cbn [length]; split; try lia; try congruence. Qed.
+
+(** ** Counters *)
+
+Lemma count_for_some_nonempty ci s c : count_for ci s = Some c -> ci_counts ci <> [].
+Proof. unfold count_for. intros H Hn. rewrite Hn in H. destruct (if ci_input ci then _ else _); discriminate. Qed.
+
+Lemma kind_stats_ok ci sv mids : exists o, kind_stats true ci sv mids = Ok o.
+Proof.
+  unfold kind_stats. destruct (median_counter_sum ci mids 0) as [sum|]; [|eexists; reflexivity].
+  rewrite checked_div_ok by lia. cbn [bind].
+  destruct (opt_bind (hd_error sv) (count_for ci)) as [f|] eqn:Ef; [|eexists; reflexivity].
+  destruct (opt_bind (last_error sv) (count_for ci)) as [l|]; [|eexists; reflexivity].
+  assert (ci_counts ci <> []) as Hne.
+  { destruct (hd_error sv) as [s|]; [|discriminate]. cbn [opt_bind] in Ef. eapply count_for_some_nonempty; eassumption. }
+  unfold mean_count. rewrite checked_div_ok.
+  - cbn [bind]. eexists; reflexivity.
+  - destruct (ci_counts ci); [congruence|]. cbn [length]. lia.
+Qed.
+
+Lemma map_res_ok {A B} (f : A -> res B) l : (forall x, exists y, f x = Ok y) -> exists ys, map_res f l = Ok ys.
+Proof.
+  intros H. induction l as [|x r IH]; cbn [map_res]; [eexists; reflexivity|].
+  destruct (H x) as [y ->]. destruct IH as [ys ->]. cbn [bind]. eexists; reflexivity.
+Qed.
+
+(** * Inversion of [compute_stats] *)
+
+Lemma compute_stats_inv fixed dbg sv inp st :
+  compute_stats fixed dbg sv inp = Ok st ->
+  exists tc td mids mn mx md counts,
+    mul64 dbg (in_size inp) (N.of_nat (length (in_durs inp))) = Ok tc /\
+    sum128 dbg 0 (in_durs inp) = Ok td /\
+    slice_middle sv = Ok mids /\
+    end_duration (hd_error sv) (in_size inp) = Ok mn /\
+    end_duration (last_error sv) (in_size inp) = Ok mx /\
+    median_duration_of dbg mids (in_size inp) = Ok md /\
+    map_res (fun ci => kind_stats fixed ci sv mids) (in_counters inp) = Ok counts /\
+    st = assemble fixed inp sv mids tc mn mx md (if tc =? 0 then 0 else td / tc) counts.
+Proof.
+  unfold compute_stats. intros H.
+  destruct (mul64 dbg _ _) as [tc|] eqn:E1; cbn [bind] in H; [|discriminate].
+  destruct (sum128 dbg 0 _) as [td|] eqn:E2; cbn [bind] in H; [|discriminate].
+  destruct (slice_middle sv) as [mids|] eqn:E3; cbn [bind] in H; [|discriminate].
+  destruct (end_duration (hd_error sv) _) as [mn|] eqn:E4; cbn [bind] in H; [|discriminate].
+  destruct (end_duration (last_error sv) _) as [mx|] eqn:E5; cbn [bind] in H; [|discriminate].
+  destruct (median_duration_of dbg mids _) as [md|] eqn:E6; cbn [bind] in H; [|discriminate].
+  destruct (map_res _ _) as [counts|] eqn:E7; cbn [bind] in H; [|discriminate].
+  injection H as <-. exists tc, td, mids, mn, mx, md, counts.
+  repeat split; first [reflexivity | assumption].
+Qed.
+
+(** * Domain of the property *)
+
+(** A sample size of zero occurs only together with no samples. *)
+Definition size_ok (inp : inputs) : Prop := in_size inp <> 0 \/ in_durs inp = [].
+(** The u128 total of the durations and the u64 iteration count do not overflow. *)
+Definition no_overflow (inp : inputs) : Prop :=
+  sum_list (in_durs inp) < 2 ^ 128 /\ in_size inp * N.of_nat (length (in_durs inp)) < 2 ^ 64.
+
+Lemma admissible_nil durs : admissibleb durs [] = true -> durs = [].
+Proof.
+  intros H. destruct (admissible_vals _ _ H) as (_ & _ & L). destruct durs; [reflexivity|discriminate].
+Qed.
+
+Lemma admissible_size_ok inp sv :
+  admissibleb (in_durs inp) sv = true -> size_ok inp -> in_size inp <> 0 \/ sv = [].
+Proof.
+  intros H [Hs|Hd]; [left; exact Hs|right].
+  destruct (admissible_vals _ _ H) as (_ & _ & L). rewrite Hd in L. destruct sv; [reflexivity|discriminate].
+Qed.
+
+Lemma end_duration_ok o s : s <> 0 \/ o = None -> exists v, end_duration o s = Ok v.
+Proof.
+  intros [H| ->]; [|eexists; reflexivity].
+  destruct o as [x|]; cbn [end_duration]; [|eexists; reflexivity].
+  rewrite checked_div_ok by exact H. eexists; reflexivity.
+Qed.
+
+Lemma mids_sum_le (sv mids : list (N * N)) : middle_of sv mids -> sum_list (map snd mids) <= sum_list (map snd sv).
+Proof.
+  intros H. destruct H as [->|x Hev Hx|x y Hne Hev Hx Hy]; cbn [map sum_list].
+  - lia.
+  - apply nth_error_In in Hx. pose proof (sum_list_in_le (map (@snd N N) sv) (@snd N N x) (in_map (@snd N N) _ _ Hx)). lia.
+  - destruct (even_half _ Hev) as (H1 & H2 & H3); [intros E; apply Hne; destruct sv; [reflexivity|discriminate]|].
+    rewrite <- H1 in Hy.
+    (* split sv at position k = len/2 - 1 *)
+    destruct (nth_error_split _ _ Hx) as (l1 & l2 & -> & Hl).
+    rewrite <- Hl in Hy. rewrite nth_error_app2 in Hy by lia.
+    replace (S (length l1) - length l1)%nat with 1%nat in Hy by lia.
+    destruct l2 as [|y' l2']; [discriminate|]. cbn in Hy. injection Hy as ->.
+    rewrite map_app, sum_list_app. cbn [map sum_list]. lia.
+Qed.
+
+Lemma median_duration_ok dbg sv mids s :
+  middle_of sv mids -> (s <> 0 \/ sv = []) -> (dbg = true -> sum_list (map snd sv) < 2 ^ 128) ->
+  exists v, median_duration_of dbg mids s = Ok v.
+Proof.
+  intros Hm Hs Hov. pose proof (mids_sum_le _ _ Hm) as Hle.
+  unfold median_duration_of. destruct mids as [|a r] eqn:Em; [eexists; reflexivity|].
+  destruct (sum128_ok dbg (map snd (a :: r)) 0) as [v Hv]; [intros D; specialize (Hov D); lia|].
+  rewrite Hv. cbn [bind]. rewrite checked_div_ok by (cbn [length]; lia). cbn [bind].
+  destruct Hs as [Hs| ->].
+  - rewrite checked_div_ok by exact Hs. eexists; reflexivity.
+  - exfalso. inversion Hm; subst; try congruence.
+    match goal with H : nth_error [] ?k = Some _ |- _ => destruct k; discriminate H end.
+Qed.
+
+(** ** Totality *)
+
+Lemma compute_stats_total dbg sv inp :
+  admissibleb (in_durs inp) sv = true -> size_ok inp -> (dbg = true -> no_overflow inp) ->
+  exists st, compute_stats true dbg sv inp = Ok st.
+Proof.
+  intros Ha Hs Hov. destruct (admissible_vals _ _ Ha) as (P & S & L).
+  pose proof (admissible_size_ok _ _ Ha Hs) as Hs'.
+  unfold compute_stats.
+  destruct (mul64_ok dbg (in_size inp) (N.of_nat (length (in_durs inp)))) as [tc ->];
+    [intros D; apply (Hov D)|]. cbn [bind].
+  destruct (sum128_ok dbg (in_durs inp) 0) as [td ->]; [intros D; destruct (Hov D); lia|]. cbn [bind].
+  destruct (slice_middle_ok sv) as (mids & -> & Hm). cbn [bind].
+  destruct (end_duration_ok (hd_error sv) (in_size inp)) as [mn ->];
+    [destruct Hs' as [H| ->]; [left; exact H|right; reflexivity]|]. cbn [bind].
+  destruct (end_duration_ok (last_error sv) (in_size inp)) as [mx ->];
+    [destruct Hs' as [H| ->]; [left; exact H|right; reflexivity]|]. cbn [bind].
+  destruct (median_duration_ok dbg sv mids (in_size inp) Hm Hs') as [md ->].
+  { intros D. destruct (Hov D) as [H1 _]. rewrite (sum_list_perm _ _ P). exact H1. }
+  cbn [bind].
+  destruct (map_res_ok (fun ci => kind_stats true ci sv mids) (in_counters inp)) as [cs ->];
+    [intros ci; apply kind_stats_ok|]. cbn [bind].
+  eexists; reflexivity.
+Qed.
+
+(** * The time figures are the order statistics *)
+
+Lemma zero_div s : 0 / s = 0.
+Proof. destruct s; reflexivity. Qed.
+
+Lemma admissible_nonempty durs sv x r : admissibleb durs sv = true -> sv = x :: r -> durs <> [].
+Proof.
+  intros H -> ->. destruct (admissible_vals _ _ H) as (_ & _ & L). discriminate.
+Qed.
+
+Lemma end_duration_hd durs sv s mn :
+  admissibleb durs sv = true -> end_duration (hd_error sv) s = Ok mn -> mn = spec_fastest durs s.
+Proof.
+  intros Ha H. unfold spec_fastest. destruct sv as [|x r]; cbn [hd_error end_duration] in H.
+  - injection H as <-. apply admissible_nil in Ha. subst. cbn. symmetry. apply zero_div.
+  - apply checked_div_inv in H. destruct H as [_ ->].
+    rewrite (admissible_hd durs (x :: r) x Ha eq_refl). reflexivity.
+Qed.
+
+Lemma end_duration_last durs sv s mx :
+  admissibleb durs sv = true -> end_duration (last_error sv) s = Ok mx -> mx = spec_slowest durs s.
+Proof.
+  intros Ha H. unfold spec_slowest. destruct (last_error sv) as [x|] eqn:El; cbn [end_duration] in H.
+  - apply checked_div_inv in H. destruct H as [_ ->].
+    rewrite (admissible_last durs sv x Ha El). reflexivity.
+  - injection H as <-. apply last_error_none in El. subst. apply admissible_nil in Ha. subst.
+    cbn. symmetry. apply zero_div.
+Qed.
+
+Lemma nth_of_view durs sv k x :
+  admissibleb durs sv = true -> nth_error sv k = Some x -> nth k (sort_vals durs) 0 = snd x.
+Proof.
+  intros Ha Hx. rewrite <- (admissible_sorted_vals _ _ Ha).
+  apply nth_error_nth. rewrite nth_error_map, Hx. reflexivity.
+Qed.
+
+Lemma median_duration_val dbg durs sv mids s md :
+  admissibleb durs sv = true -> sum_list durs < 2 ^ 128 -> middle_of sv mids ->
+  median_duration_of dbg mids s = Ok md -> md = spec_median durs s.
+Proof.
+  intros Ha Hov Hm H. destruct (admissible_vals _ _ Ha) as (P & S & L).
+  pose proof (mids_sum_le _ _ Hm) as Hle. rewrite (sum_list_perm _ _ P) in Hle.
+  unfold spec_median, mid_lo, mid_hi. rewrite <- L.
+  destruct Hm as [->|x Hev Hx|x y Hne Hev Hx Hy].
+  - apply admissible_nil in Ha. subst. cbn in H. injection H as <-. reflexivity.
+  - assert (durs <> []) as Hd.
+    { intros ->. destruct sv; [destruct (length (@nil (N*N)) / 2)%nat; discriminate|discriminate]. }
+    destruct durs as [|d0 dr] eqn:Ed; [congruence|]. rewrite <- Ed in *. rewrite Hev.
+    cbn [median_duration_of map length] in H.
+    destruct (sum128 dbg 0 [snd x]) as [v|] eqn:Es; cbn [bind] in H; [|discriminate].
+    apply sum128_val in Es; [|cbn [sum_list map] in *; lia]. cbn [sum_list] in Es.
+    destruct (checked_div v (N.of_nat 1)) as [a|] eqn:E1; cbn [bind] in H; [|discriminate].
+    apply checked_div_inv in E1. destruct E1 as [_ ->].
+    apply checked_div_inv in H. destruct H as [_ ->].
+    rewrite (nth_of_view _ _ _ _ Ha Hx). subst v. change (N.of_nat 1) with 1. rewrite N.div_1_r.
+    f_equal. lia.
+  - assert (durs <> []) as Hd.
+    { intros ->. apply Hne. destruct sv; [reflexivity|discriminate]. }
+    destruct durs as [|d0 dr] eqn:Ed; [congruence|]. rewrite <- Ed in *. rewrite Hev.
+    cbn [median_duration_of map length] in H.
+    destruct (sum128 dbg 0 [snd x; snd y]) as [v|] eqn:Es; cbn [bind] in H; [|discriminate].
+    apply sum128_val in Es; [|cbn [sum_list map] in *; lia]. cbn [sum_list] in Es.
+    destruct (checked_div v (N.of_nat 2)) as [a|] eqn:E1; cbn [bind] in H; [|discriminate].
+    apply checked_div_inv in E1. destruct E1 as [_ ->].
+    apply checked_div_inv in H. destruct H as [_ ->].
+    rewrite (nth_of_view _ _ _ _ Ha Hx), (nth_of_view _ _ _ _ Ha Hy). subst v. change (N.of_nat 2) with 2.
+    f_equal. f_equal. lia.
+Qed.
+
+Lemma order_stats dbg sv inp st :
+  admissibleb (in_durs inp) sv = true -> no_overflow inp ->
+  compute_stats true dbg sv inp = Ok st ->
+  fastest (st_time st) = spec_fastest (in_durs inp) (in_size inp) /\
+  slowest (st_time st) = spec_slowest (in_durs inp) (in_size inp) /\
+  median (st_time st) = spec_median (in_durs inp) (in_size inp) /\
+  mean (st_time st) = spec_mean (in_durs inp) (in_size inp) /\
+  st_iter_count st = in_size inp * N.of_nat (length (in_durs inp)) /\
+  st_sample_count st = N.of_nat (length (in_durs inp)) mod 2 ^ 32.
+Proof.
+  intros Ha [Hov1 Hov2] H.
+  apply compute_stats_inv in H.
+  destruct H as (tc & td & mids & mn & mx & md & counts & E1 & E2 & E3 & E4 & E5 & E6 & E7 & ->).
+  apply mul64_val in E1; [|exact Hov2]. apply sum128_val in E2; [|lia]. apply slice_middle_inv in E3.
+  cbn [assemble st_time st_iter_count st_sample_count fastest slowest median mean].
+  split; [eapply end_duration_hd; eassumption|].
+  split; [eapply end_duration_last; eassumption|].
+  split; [eapply median_duration_val; eassumption|].
+  split; [|split; [exact E1|reflexivity]].
+  unfold spec_mean. subst tc td. rewrite N.add_0_l. reflexivity.
+Qed.
+
+(** * Bounds *)
+
+Lemma nth_sorted_between durs k :
+  (k < length durs)%nat -> list_min durs <= nth k (sort_vals durs) 0 <= list_max durs.
+Proof.
+  intros Hk. assert (durs <> []) as Hne by (intros ->; cbn in Hk; lia).
+  assert (In (nth k (sort_vals durs) 0) durs) as Hin.
+  { eapply Permutation_in; [apply sort_vals_perm|]. apply nth_In.
+    rewrite (Permutation_length (sort_vals_perm durs)). exact Hk. }
+  destruct (list_min_spec _ Hne) as [_ F1]. destruct (list_max_spec _ Hne) as [_ F2].
+  rewrite Forall_forall in F1, F2. split; [apply F1|apply F2]; exact Hin.
+Qed.
+
+Lemma spec_bounds durs s :
+  s <> 0 \/ durs = [] ->
+  spec_fastest durs s <= spec_median durs s <= spec_slowest durs s /\
+  spec_fastest durs s <= spec_mean durs s <= spec_slowest durs s.
+Proof.
+  intros [Hs| ->]; [|unfold spec_fastest, spec_slowest, spec_median, spec_mean; cbn; rewrite !zero_div;
+                     destruct (s * 0 =? 0); lia].
+  destruct durs as [|d0 dr] eqn:Ed.
+  { unfold spec_fastest, spec_slowest, spec_median, spec_mean; cbn. rewrite !zero_div. destruct (s * 0 =? 0); lia. }
+  rewrite <- Ed. assert (durs <> []) as Hne by (rewrite Ed; discriminate).
+  assert (length durs <> 0%nat) as Hn by (rewrite Ed; discriminate).
+  unfold spec_fastest, spec_slowest. split.
+  - unfold spec_median. rewrite Ed. rewrite <- Ed.
+    pose proof (nth_sorted_between durs (length durs / 2) (half_lt _ Hn)) as Hhi. fold (mid_hi durs) in Hhi.
+    destruct (Nat.even (length durs)) eqn:Hev.
+    + destruct (even_half _ Hev Hn) as (H1 & H2 & H3).
+      pose proof (nth_sorted_between durs (length durs / 2 - 1) ltac:(lia)) as Hlo.
+      assert (mid_lo durs = nth (length durs / 2 - 1) (sort_vals durs) 0) as Elo by (unfold mid_lo; rewrite Hev; reflexivity).
+      rewrite <- Elo in Hlo.
+      split; apply N.div_le_mono; try exact Hs.
+      * apply N.div_le_lower_bound; lia.
+      * apply N.div_le_upper_bound; lia.
+    + split; apply N.div_le_mono; try exact Hs; lia.
+  - unfold spec_mean.
+    destruct (list_min_spec _ Hne) as [_ F1]. destruct (list_max_spec _ Hne) as [_ F2].
+    destruct (sum_list_bounds durs _ _ F1 F2) as [B1 B2].
+    set (n := N.of_nat (length durs)) in *. assert (n <> 0) as Hn' by lia.
+    destruct (s * n =? 0) eqn:E0; [apply N.eqb_eq in E0; nia|].
+    split.
+    + rewrite <- (N.div_mul_cancel_r (list_min durs) s n) by assumption.
+      apply N.div_le_mono; [nia|lia].
+    + rewrite <- (N.div_mul_cancel_r (list_max durs) s n) by assumption.
+      apply N.div_le_mono; [nia|lia].
+Qed.
+
+Lemma bounds dbg sv inp st :
+  admissibleb (in_durs inp) sv = true -> size_ok inp -> no_overflow inp ->
+  compute_stats true dbg sv inp = Ok st ->
+  fastest (st_time st) <= median (st_time st) <= slowest (st_time st) /\
+  fastest (st_time st) <= mean (st_time st) <= slowest (st_time st).
+Proof.
+  intros Ha Hs Hov H. destruct (order_stats _ _ _ _ Ha Hov H) as (-> & -> & -> & -> & _).
+  apply spec_bounds. exact Hs.
+Qed.
+
+(** * No NaN, no infinity *)
+
+Lemma per_size_fin x c : c <> 0 -> xq_is_fin (per_size x (xq_of_N c)) = true.
+Proof.
+  intros H. unfold per_size, xq_of_N, xq_div. destruct (c =? 0) eqn:E; [apply N.eqb_eq in E; contradiction|].
+  cbn [xq_is_fin]. apply negb_true_iff. apply N.eqb_neq. lia.
+Qed.
+
+Lemma med_entry_fin a b m c : m <> 0 -> c <> 0 -> xq_is_fin (med_entry a b (xq_of_N m) (xq_of_N c)) = true.
+Proof.
+  intros Hm Hc. unfold med_entry, xq_of_N, xq_add, xq_div.
+  destruct (m =? 0) eqn:E; [apply N.eqb_eq in E; contradiction|].
+  destruct (c =? 0) eqn:E'; [apply N.eqb_eq in E'; contradiction|].
+  cbn [xq_is_fin]. apply negb_true_iff. apply N.eqb_neq. lia.
+Qed.
+
+Lemma column_fin inp sv mids tc f total :
+  let c := column true inp sv mids tc f total in
+  xq_is_fin (fastest c) = true /\ xq_is_fin (slowest c) = true /\
+  xq_is_fin (median c) = true /\ xq_is_fin (mean c) = true.
+Proof.
+  cbn zeta. unfold column. cbn [fastest slowest median mean].
+  repeat split; try (apply per_size_fin; lia); try (apply med_entry_fin; lia).
+Qed.
+
+Lemma assemble_all_fin inp sv mids tc mn mx md me counts :
+  forallb xq_is_fin (all_xq (assemble true inp sv mids tc mn mx md me counts)) = true.
+Proof.
+  unfold all_xq, column_of, assemble.
+  cbn [st_max_count st_max_size st_tallies map flat_map all_ops app fst snd forallb].
+  repeat match goal with
+         | |- context [xq_is_fin (?sel (column true inp sv mids tc ?f ?t))] =>
+             let H := fresh in
+             pose proof (column_fin inp sv mids tc f t) as H; cbn zeta in H;
+             destruct H as (-> & -> & -> & ->)
+         end.
+  reflexivity.
+Qed.
+
+Lemma total_no_nan dbg sv inp :
+  admissibleb (in_durs inp) sv = true -> size_ok inp -> (dbg = true -> no_overflow inp) ->
+  exists st, compute_stats true dbg sv inp = Ok st /\
+             forallb xq_is_fin (all_xq st) = true /\ existsb xq_is_nan (all_xq st) = false.
+Proof.
+  intros Ha Hs Hov. destruct (compute_stats_total dbg sv inp Ha Hs Hov) as [st H].
+  exists st. split; [exact H|].
+  apply compute_stats_inv in H.
+  destruct H as (tc & td & mids & mn & mx & md & counts & _ & _ & _ & _ & _ & _ & _ & ->).
+  pose proof (assemble_all_fin inp sv mids tc mn mx md (if tc =? 0 then 0 else td / tc) counts) as Hf.
+  split; [exact Hf|].
+  apply not_true_iff_false. intros He. apply existsb_exists in He. destruct He as (x & Hin & Hx).
+  rewrite forallb_forall in Hf. specialize (Hf _ Hin). destruct x; discriminate.
+Qed.
+
+(** * What [admissibleb] means: exactly the sorted permutations of the samples *)
+
+Definition admissible (durs : list N) (sv : list (N * N)) : Prop :=
+  Permutation sv (indexed durs) /\ StronglySorted (fun a b => snd a <= snd b) sv.
+
+Lemma pair_eqb_refl a : pair_eqb a a = true.
+Proof. unfold pair_eqb. rewrite !N.eqb_refl. reflexivity. Qed.
+
+Lemma remove_first_in a l : In a l -> exists l', remove_first a l = Some l'.
+Proof.
+  induction l as [|x r IH]; intros H; [destruct H|]. cbn [remove_first].
+  destruct (pair_eqb a x) eqn:E; [eexists; reflexivity|].
+  destruct H as [->|H]; [rewrite pair_eqb_refl in E; discriminate|].
+  destruct (IH H) as [r' ->]. eexists; reflexivity.
+Qed.
+
+Lemma is_perm_complete l1 : forall l2, Permutation l1 l2 -> is_perm l1 l2 = true.
+Proof.
+  induction l1 as [|a r IH]; intros l2 P; cbn [is_perm].
+  - apply Permutation_nil in P. subst. reflexivity.
+  - destruct (remove_first_in a l2) as [l2' R]; [eapply Permutation_in; [exact P|left; reflexivity]|].
+    rewrite R. apply IH. apply remove_first_perm in R.
+    eapply Permutation_cons_inv. eapply Permutation_trans; [exact P|exact R].
+Qed.
+
+Lemma sorted_by_snd_iff l : sorted_by_snd l = true <-> StronglySorted (fun a b => snd a <= snd b) l.
+Proof.
+  split.
+  - intros H. apply Sorted_StronglySorted; [intros x y z; apply N.le_trans|].
+    induction l as [|x r IH]; [constructor|]. cbn [sorted_by_snd] in H. destruct r as [|y r'].
+    + constructor; constructor.
+    + apply andb_true_iff in H. destruct H as [H1 H2]. constructor; [apply IH; exact H2|].
+      constructor. apply N.leb_le. exact H1.
+  - intros H. apply StronglySorted_Sorted in H.
+    induction l as [|x r IH]; [reflexivity|]. cbn [sorted_by_snd]. destruct r as [|y r']; [reflexivity|].
+    inversion H as [|? ? Hr Hx]; subst. apply andb_true_iff. split; [|apply IH; exact Hr].
+    inversion Hx; subst. apply N.leb_le. assumption.
+Qed.
+
+Lemma admissibleb_iff durs sv : admissibleb durs sv = true <-> admissible durs sv.
+Proof.
+  unfold admissibleb, admissible. rewrite andb_true_iff, sorted_by_snd_iff. split; intros [H1 H2]; split; try exact H2.
+  - apply is_perm_sound. exact H1.
+  - apply is_perm_complete. exact H1.
+Qed.
+
+(** What the specification functions mean. *)
+Lemma spec_meaning durs :
+  (durs <> [] -> In (list_min durs) durs /\ Forall (fun y => list_min durs <= y) durs) /\
+  (durs <> [] -> In (list_max durs) durs /\ Forall (fun y => y <= list_max durs) durs) /\
+  Permutation (sort_vals durs) durs /\ StronglySorted N.le (sort_vals durs) /\
+  (forall s, spec_fastest durs s = list_min durs / s) /\
+  (forall s, spec_slowest durs s = list_max durs / s) /\
+  (forall s, durs <> [] -> spec_median durs s =
+     if Nat.even (length durs)
+     then ((nth (length durs / 2 - 1) (sort_vals durs) 0 + nth (length durs / 2) (sort_vals durs) 0) / 2) / s
+     else nth (length durs / 2) (sort_vals durs) 0 / s) /\
+  (forall s, s * N.of_nat (length durs) <> 0 ->
+     spec_mean durs s = sum_list durs / (s * N.of_nat (length durs))) /\
+  (forall s, spec_median [] s = 0 /\ spec_mean [] s = 0 /\ spec_fastest [] s = 0 /\ spec_slowest [] s = 0).
+Proof.
+  split; [apply list_min_spec|]. split; [apply list_max_spec|].
+  split; [apply sort_vals_perm|]. split; [apply sort_vals_sorted|].
+  split; [reflexivity|]. split; [reflexivity|]. split; [|split].
+  - intros s Hne. unfold spec_median, mid_lo, mid_hi. destruct durs; [congruence|].
+    destruct (Nat.even (length (n :: durs))); reflexivity.
+  - intros s Hc. unfold spec_mean. destruct (s * N.of_nat (length durs) =? 0) eqn:E; [apply N.eqb_eq in E; contradiction|].
+    reflexivity.
+  - intros s. unfold spec_median, spec_mean, spec_fastest, spec_slowest, list_min, list_max.
+    cbn [length fold_left sum_list]. rewrite !zero_div. destruct (s * N.of_nat 0 =? 0); repeat split; reflexivity.
+Qed.
+
+(** The hypotheses of the theorems are satisfiable by non-trivial inputs: four
+    samples with a tie at the minimum, two different admissible views. *)
+Definition example_inputs : inputs :=
+  {| in_size := 2; in_durs := [5; 3; 3; 9];
+     in_allocs := [(1, {| ai_grow := tally_zero; ai_shrink := tally_zero;
+                          ai_alloc := {| t_count := 4; t_size := 64 |}; ai_dealloc := tally_zero;
+                          ai_max_count := 2; ai_max_size := 48 |})];
+     in_counters := [ {| ci_counts := [10; 20; 30; 40]; ci_input := true |} ] |}.
+
+Example hypotheses_satisfiable :
+  admissibleb (in_durs example_inputs) [(1, 3); (2, 3); (0, 5); (3, 9)] = true /\
+  admissibleb (in_durs example_inputs) [(2, 3); (1, 3); (0, 5); (3, 9)] = true /\
+  size_ok example_inputs /\ no_overflow example_inputs /\
+  (exists st, compute_stats true true [(2, 3); (1, 3); (0, 5); (3, 9)] example_inputs = Ok st /\
+              st_time st = {| fastest := 1; slowest := 4; median := 2; mean := 2 |}).
+Proof.
+  split; [reflexivity|]. split; [reflexivity|].
+  split; [left; discriminate|]. split; [split; reflexivity|].
+  eexists. split; reflexivity.
+Qed.
